@@ -12,7 +12,10 @@ CLAIMED = {
              "(algorithm,family) managers with the compiled model on seeded histories, plus OpenSSL digest monitor. "
              "T-route for hash_pad: the C function of all 23 SIMD-family context files is regenerated from the source (clang AST -> "
              "Gen/HashPad.lean) on every run and proved equal to the model's padding for every total and every buffer content "
-             "(GenProps/HashPad.lean: all_canon, hashpad_current), plus in-process correspondence of the real function. "
+             "(GenProps/HashPad.lean: all_canon, hashpad_current), plus in-process correspondence of the real function; "
+             "T-route for the loop body of *_ctx_mgr_resubmit and the top-up block of submit (Gen/Resubmit.lean, Gen/TopUp.lean): "
+             "proved to take, in every context state, the decision of one unfolding of HashMB.resubmit / the first half of "
+             "HashMB.submitTail (canon_iter, iter_refines, resubmit_eq_iterModel, canon_topup, topup_refines). "
              "SIMD kernels are modelled (compress^n), not verified.",
         note="Trusted: Lean kernel; axioms propext/Classical.choice/Quot.sound; the correspondence harness "
              "(differential, bounded by its generators); Spec/*.lean transcriptions (tested on vectors); OpenSSL as "
@@ -28,12 +31,15 @@ CLAIMED["C06"] = dict(
          "occupied lanes <= lanes and duplicate-free, flush returns none iff nothing in flight, every call returns "
          "(loops terminate), k flushes drain a manager holding k contexts, complete iff LAST, idle "
          "contexts accept UPDATE/LAST. Tie: correspondence of all 28 family managers + public API with the model, and "
-         "model-independent monitors in the harness (exactly-once accounting, status bits, user_data, caller buffers, drain).",
+         "model-independent monitors in the harness (exactly-once accounting, status bits, user_data, caller buffers, drain). "
+         "T-route: the loop body of *_ctx_mgr_resubmit and the top-up block of submit of the 23 SIMD-family context files are "
+         "regenerated from the source on every run and proved to take the model's decision in every context state "
+         "(which context is handed back with which status, which job is submitted: GenProps/Resubmit.lean, GenProps/TopUp.lean).",
     note="Trusted: Lean kernel + standard axioms; harness (differential). Termination of the resubmit/flush loops and the "
          "finite drain (k contexts held => exactly k flushes hand them back, once each) are theorems (C06_total, C06_drain). "
          "user_data / caller buffers are not model state: covered by harness monitors only.",
-    technique="Lean 4 invariant proof over hand-written model + differential correspondence + runtime monitors",
-    engine="HashMB", ref="4.1, 5 C06")
+    technique="Lean 4 invariant proof over hand-written model + Lean 4 proof over the translated resubmit loop / top-up block + differential correspondence + runtime monitors",
+    engine="HashMB", ref="4.1, 5 C06, 10.9")
 CLAIMED["C11"] = dict(
     text="Proof (Lean 4): a rejected submit returns the context with the matching code and changes nothing but its "
          "error field (lanes, free stack, other contexts, abstract streams identical); histories with rejected calls "
@@ -375,11 +381,12 @@ m = {
          "kind_free_text": "abstract n-thread status-word protocol + mini-ISA machine (Impl/SelfTestMachine.lean) + verified simulation checker; tools/gen_selftest.py translator; harness/drv_fips.c"},
         {"name": "HashMB", "path": "lean/IsalVerif/Impl/HashMB.lean", "serves_properties": ["C01", "C06", "C11", "C15", "C20"],
          "kind_free_text": "hand-written Lean model of ctx layer + lane scheduler; correspondence harness harness/drv_hash.c"},
-        {"name": "CtxC", "path": "lean/IsalVerif/Impl/PadC.lean", "serves_properties": ["C01", "C11", "C15", "C16", "C20"],
+        {"name": "CtxC", "path": "lean/IsalVerif/Impl/PadC.lean", "serves_properties": ["C01", "C06", "C11", "C15", "C16", "C20"],
          "kind_free_text": "T-route for the C context layer: tools/gen_hashpad.py + tools/gen_submit.py (clang-14 JSON AST) translate hash_pad and the "
-                           "bookkeeping prefix of _ctx_mgr_submit_ of the 23 SIMD-family files into Impl/PadC.lean / Impl/SubmitC.lean programs; "
-                           "Lemmas/PadCProofs.lean, Lemmas/SubmitCProofs.lean prove them against Impl/HashMB.lean for all inputs; "
-                           "GenProps/HashPad.lean, GenProps/SubmitPrefix.lean are the per-run obligations; harness/drv_hashpad.c, drv_submit.c "
+                           "bookkeeping prefix of _ctx_mgr_submit_ of the 23 SIMD-family files into Impl/PadC.lean / Impl/SubmitC.lean programs, "
+                           "tools/gen_resubmit.py + gen_topup.py the resubmit loop body and the top-up block (Impl/ResubmitC.lean, TopUpC.lean); "
+                           "Lemmas/{PadC,SubmitC,ResubmitC,TopUpC}Proofs.lean prove them against Impl/HashMB.lean for all inputs; "
+                           "GenProps/{HashPad,SubmitPrefix,Resubmit,TopUp}.lean are the per-run obligations; harness/drv_hashpad.c, drv_submit.c "
                            "#include the .c file and run the real functions in-process (correspondence / witness replay)"},
     ],
     "checks": checks,
